@@ -15,6 +15,7 @@ PID = "C04"
 THEOREMS = [
     "transform_is_weighted_mass", "transform_is_spec_image", "fast_path_eq_general",
     "linear_ramp_spec", "persistence_weight_spec",
+    "image_on_imager_state", "history_then_transform", "fast_path_eq_general_kernelM",
 ]
 RULE = ("seeded generator over kernel classes {isotropic scalar sigma, isotropic 2x2 sigma (fast path), "
         "axis-aligned sxx != syy (general path), correlated |r| < 0.3 / < 0.75 / < 0.925 / >= 0.925 (both signs), "
